@@ -83,6 +83,11 @@ CLAIMED = {
             "Trusted: simfs journal/image reconstruction, process-death crash model (every completed FS operation persists, the one in flight persists as a prefix) as the property states; power loss is not modelled.",
             "deterministic simulation + exhaustive enumeration of crash prefixes of the FS-operation journal",
             "DESIGN.md §3 C08"),
+    "C03": ("exploration",
+            "A seeded logical dataset is rendered by the simulator's OWN RDB encoder (written from the format description; every encoding Redis 4.0-8.x emits for strings, lists, sets, sorted sets, hashes and streams, every ziplist/listpack integer and string width, 0xFFFF ziplists, LZF, RDB versions 6-13) and replayed by the real RedisOutput.Send into a Redis double in semantic mode under a seeded replay configuration (restore on/off, max bulk length, 1-4 parallel workers whose requests execute in scheduler-chosen order, pipe size, chunk threshold lowered through an injected setter, DB map, target version 4.0-8.2). Oracle: the target keyspace equals the LOGICAL dataset (type, content, order, bit-exact scores, stream ids, absolute expiry, expired keys gone), every RESTORE payload is byte-for-byte body + version + CRC64 verified by an independent implementation, and a fault-free replay never fails.",
+            "Trusted: rdbgen encoder (unit-tested byte-exactly against real Redis dumps), the double's command semantics and RESTORE registry. Modules, hash field expiry and stream type 26 are not generated.",
+            "deterministic simulation (scheduler-ordered parallel workers) + dataset-equality oracle over an independent RDB encoder",
+            "DESIGN.md §3 C03"),
 }
 
 NOT_APPLICABLE = {
